@@ -8,7 +8,7 @@ from vlib.gen import colors as gc
 from vlib.oracles import cie
 from vlib.oracles import css as ocss
 from vlib.oracles import wcag as ow
-from vlib.runner import Hyp, Violation, exc_bucket
+from vlib.runner import Enum, Hyp, Violation, child_check_block, exc_bucket
 
 ID = "C04"
 LEVEL = "exploration"
@@ -18,7 +18,8 @@ RULE = (
     "4b routines: direct calls of binary_search_lightness / gradient_descent_oklch / generate_accessible_color with "
     "arbitrary tolerance in [0.05,40] or schedules of 0-6 unsorted entries, targets in [1.1,21]. 4c step chain: every call "
     "of the multi-phase search during mode 1/2 runs recorded by attribute replacement. Non-trivial: 4a result differs from "
-    "the input; 4b routine returned a moved colour; 4c runs with >= 2 recorded steps. Distinct by argument tuple."
+    "the input; 4b routine returned a moved colour; 4c runs with >= 2 recorded steps. Distinct by argument tuple. A quarter-size slice of "
+    "both campaigns is repeated in a child process under `python -O` (asserts compiled out)."
 )
 ASSUMPTIONS = [
     "O-DE00 validated on the 34 Sharma pairs; +0.01 slack between the library's and the oracle's dE",
@@ -210,4 +211,7 @@ def subchecks(tier):
     return [
         Hyp("4a+4c-strict-cap-and-step-chain", modes_strategy, judge_modes, examples=6400 if q else 160000),
         Hyp("4b-search-routines", routine_strategy, judge_routine, examples=8000 if q else 300000),
+        # the same bounds must hold when the interpreter runs with -O (asserts compiled out): a slice of the two campaigns in a child process
+        Enum("4a+4c-under-python-O", block=child_check_block("C04", "4a+4c-strict-cap-and-step-chain", ["--python-O"], 0.25 if q else 1.0, "python-O"), judge=judge_modes),
+        Enum("4b-under-python-O", block=child_check_block("C04", "4b-search-routines", ["--python-O"], 0.25 if q else 1.0, "python-O"), judge=judge_routine),
     ]
